@@ -64,7 +64,7 @@ def trace_consts(trace_path):
         if x.get("ev") != "step":
             continue
         a = x["a"]
-        if a["act"] in ("Sub1", "SubReject"):
+        if a["act"] in ("SubCheck", "SubReject"):
             frames.append(_tla(a["f"]))
         if a["act"] == "LSubscribe":
             lpats.append(_tla([a["sp"], a["p"]]))
@@ -155,10 +155,10 @@ def run(ctx):
     # quick: the small configurations (np with fewer topics), no per-action coverage; thorough: all, with coverage
     # (an action that is never taken makes the run fail as vacuous)
     if thorough:
-        for cfg in ["PubSub_mc_nq.cfg", "PubSub_mc_n2.cfg", "PubSub_mc_np.cfg", "PubSub_mc_nt.cfg", "PubSub_mc_nt2.cfg", "PubSub_mc_c1.cfg", "PubSub_mc_ct.cfg"]:
+        for cfg in ["PubSub_mc_nq.cfg", "PubSub_mc_nqa.cfg", "PubSub_mc_n2.cfg", "PubSub_mc_np.cfg", "PubSub_mc_nt.cfg", "PubSub_mc_nt2.cfg", "PubSub_mc_c1.cfg", "PubSub_mc_ct.cfg"]:
             ctx.tlc_expect_ok("pubsub", "PubSubMC", cfg, coverage=True, timeout=3000)
     else:
-        ctx.tlc_expect_ok("pubsub", "PubSubMC", "PubSub_mc_nq.cfg", timeout=1200)
+        ctx.tlc_expect_ok("pubsub", "PubSubMC", "PubSub_mc_nqa.cfg", timeout=1200)   # nq with the bound AtomicCheck (thorough: also without)
         ctx.tlc_expect_ok("pubsub", "PubSubMC", "PubSub_mc_n2.cfg", coverage=True, timeout=1200)
         ctx.tlc_expect_ok("pubsub", "PubSubMC", "PubSub_mc_npq.cfg", timeout=1200, name="pubsub/PubSubMC:PubSub_mc_np.cfg (4 topics)",
                           files={"PubSub_mc_npq.cfg": _cfg_with(ctx, "PubSub_mc_np.cfg", {"Topics <- Np_Topics": "Topics <- Npq_Topics"})})
@@ -170,6 +170,10 @@ def run(ctx):
         raise _broken("the model no longer exhibits the dedup-ring residual (expected PropReplayStrict to fail): %s %s\n%s" % (
             strict.error, strict.error_name, strict.out[-2000:]))
     ctx.notes.append("strict replay property: TLC counterexample of length %d (replay after ring eviction), reproduced on the engine by the replay" % len(strict.trace))
+    # the membership check of a subscribe precedes remoteMu: TLC must exhibit the eviction race (reproduced below)
+    ev = ctx.tlc("pubsub", "PubSubMC", "PubSub_mc_evrace.cfg", timeout=900, count=False, name="evicted-stay-out (expected counterexample)")
+    if ev.timed_out or ev.error != "invariant" or ev.error_name != "EvictedStayOut":
+        raise _broken("the model no longer exhibits the subscribe/eviction race (expected EvictedStayOut to fail): %s %s" % (ev.error, ev.error_name))
     # the mutated design must be refuted too (the step properties are not vacuous)
     mut = thorough and ctx.tlc("pubsub", "PubSubMC", "PubSub_mc_nodedup.cfg", timeout=900, count=False, name="design mutant: Broadcast without dedup (expected counterexample)")
     if mut and (mut.timed_out or mut.error != "action_property" or mut.error_name != "PropAtMostOneCopy"):
@@ -183,6 +187,9 @@ def run(ctx):
     # ------------------------------------------------------------------ 3. spec -> code: behaviours replayed on the real engine
     dirs = []
     dirs.append(_emit(ctx, "PubSubGen", "PubSubGen_race1.cfg", "race1"))
+    # the membership check of a subscribe vs removal / eviction / re-admission (6 steps hold the minimal race)
+    dirs.append(_emit(ctx, "PubSubGen", "PubSubGen_evrace.cfg", "evrace",
+                      files=None if thorough else {"PubSubGen_evrace.cfg": _cfg_with(ctx, "PubSubGen_evrace.cfg", {"MaxSteps = 7": "MaxSteps = 6"})}))
     if thorough:
         race2 = _emit(ctx, "PubSubGen", "PubSubGen_race.cfg", "race2")
         dirs.append(_sample_dir(ctx, race2, 4000, "race2-sample"))
